@@ -72,8 +72,11 @@ Fixpoint oracle_up (d : list N) (placed : option (list N)) (ops : list dop) (obs
           let fin := a 0 ob in let finb := a 1 ob in let par := a 2 ob in let parb := a 3 ob in
           (match placed with
            | Some e => flag fin && bytes_match e finb       (* existing file untouched *)
-           | None => if flag fin then bytes_match d finb && negb (flag par)
-                     else (negb (flag par) || prefix_match parb d)
+           | None =>
+               (* an attempt that is not cut (the whole stream of the resuming client arrived) must complete *)
+               let uncut := len (a 0 args) + len (a 1 args) <=? dbe (a 2 args) in
+               if flag fin then bytes_match d finb && negb (flag par)
+               else negb uncut && (negb (flag par) || prefix_match parb d)
            end) && oracle_up d placed r rb
       | _ => oracle_up d placed r rb
       end
